@@ -65,6 +65,11 @@ def ann_kinds():
     # a mixed-type group whose last member is comment-less code, followed by comment-less code (1-byte instructions)
     k('M-tail-C', lambda t, a, a2: (['M {},2 {}'.format(a + 1, t), 'B {},1'.format(a + 1), 'C {},1'.format(a + 2), 'C {},1'.format(a + 3)], None))
     k('M-tail-C3', lambda t, a, a2: (['M {},3 {}'.format(a + 2, t), 'C {},1'.format(a + 2), 'B {},1'.format(a + 3), 'C {},1'.format(a + 4)], None))
+    # a mixed-type group whose last code sub-block ends in an instruction without numeric operands (skool2ctl -b
+    # would trim it from a comment-less sub-block), followed by comment-less code
+    k('M-trim-C', lambda t, a, a2: (['M {},4 {}'.format(a, t), 'B {},1,1'.format(a), 'C {},3'.format(a + 1)], None))
+    k('M-trim-C5', lambda t, a, a2: (['M {},6 {}'.format(a, t), 'B {},1,1'.format(a), 'C {},5'.format(a + 1)], None))
+    k('M-trim-mid', lambda t, a, a2: (['C {},1'.format(a + 10), 'M {},5 {}'.format(a + 6, t), 'C {},4'.format(a + 6), 'B {},1'.format(a + 10)], None))
     k('dot-D', lambda t, a, a2: (['D {}'.format(a), '. {}'.format(t), '. second line'], None))
     k('dot-title', lambda t, a, a2: (['. {}'.format(t)], ''))
     k('dot-colon', lambda t, a, a2: (['B {},4,2'.format(a), '. {}'.format(t), ': forced continuation', '. third'], None))
@@ -94,8 +99,11 @@ def ann_kinds():
 # sixteen 1-byte instructions (every address is a statement boundary)
 c01.FILLS.setdefault('ops1', bytes((0xAF, 0x3C, 0x3D, 0x04, 0x05, 0x0C, 0x0D, 0xB7, 0xA7, 0x2F, 0x37, 0x3F, 0x00, 0xD9, 0x08, 0xC9)))
 
+# DEFB 1 ; LD A,5 ; RET ; NOP ; NOP ; LD A,7 ; INC A ; RET ; XOR A ; NOP x4 ; RET
+c01.FILLS.setdefault('mixops', bytes((0x01, 0x3E, 0x05, 0xC9, 0x00, 0x00, 0x3E, 0x07, 0x3C, 0xC9, 0xAF, 0x00, 0x00, 0x00, 0x00, 0xC9)))
+
 BASE_LAYOUTS = (
-    ('code', 'c'), ('code', 'b'), ('text', 't'), ('const', 's'), ('text', 'w'), ('code', 'g'), ('ops1', 'c'), ('code', 'i'),
+    ('code', 'c'), ('code', 'b'), ('text', 't'), ('const', 's'), ('text', 'w'), ('code', 'g'), ('ops1', 'c'), ('code', 'i'), ('mixops', 'c'),
 )
 
 
@@ -114,6 +122,11 @@ def allowed(kname, text, fill, btype):
         # an 'i' entry is generated empty (no sub-blocks): it has a header, a start comment, an end comment and
         # directives on its single address, but no second statement and no instruction comments
         return False
+    if kname.startswith('M-trim') != (fill == 'mixops') and (kname.startswith('M-trim') or fill == 'mixops'):
+        # the mixed-operand fill is used for (and only for) the M-trim kinds and the plain header kinds
+        if kname.startswith('M-trim') or kname in ('icomment', 'multi', 'M', 'M-nolen', 'dot-colon', 'M-sandwich-B', 'M-sandwich-C', 'M-sandwich-W',
+                                                   '@ignoreua:i', '@bytes', 'dot-colon-blank', 'dot-colon-blank2', 'dot-revbrace', 'M-tail-C', 'M-tail-C3'):
+            return False
     if kname in PARAGRAPH_KINDS and text in ('', '.'):
         return False
     if kname == 'title' and text == '.':
